@@ -131,17 +131,17 @@ PROPS = {
         trusted_base=["pkg/symbol/table.go, symbol.go and the Link/Unlink/close-hook behaviour of pkg/port transcribed by hand into theories/Table/Table.v (Go map iteration order fixed; observables compared as sets / per-symbol sequences)", COMMON_MODEL],
     ),
     "C06": dict(
-        level_text="Coq theorems for every history of Insert/Free/Close with fresh instances: at most one symbol per id and per instance; every port link joins existing ports of two PRESENT symbol instances of ONE namespace (no link to a removed or replaced symbol, none across namespaces); lookup returns the inserted symbol after Insert and nothing after Free. The converse direction (every reference whose target is present is linked) is compared exactly with the implementation: generated universes (ids, names, two namespaces, cycles, self and dangling references, missing ports) and histories on a real symbol.Table with real nodes, with Keys and the wiring of every out-port (resolved by pointer identity to instances) after every operation.",
-        level_note="Trusted: Coq kernel + vm_compute; hand transcription of table.go / symbol.go / port linking. Completeness of the wiring is correspondence-checked, not proved. Universes have at most one symbol per (namespace, name) and each reference carries an id or a name.",
+        level_text="Coq theorems for every history of Insert/Free/Close with fresh instances: at most one symbol per id and per instance; every port link joins existing ports of two PRESENT symbol instances of ONE namespace (no link to a removed or replaced symbol, none across namespaces); lookup returns the inserted symbol after Insert and nothing after Free. REFERENCE INDEX EXACT: along every history whose references carry an id or a name (not both) and in which a name is used by one symbol of a namespace at a time, Table.references holds exactly the resolved port references of the present symbols, reversed (nothing stale, nothing missing), and the name map resolves exactly to the present symbol of that namespace and name. The converse for the port wiring itself (every such reference is also linked when both nodes offer the ports) is compared exactly with the implementation: generated universes (ids, names, two namespaces, cycles, self and dangling references, missing ports) and histories on a real symbol.Table with real nodes, with Keys and the wiring of every out-port (resolved by pointer identity to instances) after every operation.",
+        level_note="Trusted: Coq kernel + vm_compute; hand transcription of table.go / symbol.go / port linking. Completeness of the port wiring (links) is correspondence-checked, not proved; the reference index is proved exact under the history condition (computable: wf_from_b; all generated histories meet it).",
         technique="Coq invariant proof over histories (links sound, ids unique) + vm_compute correspondence of exact wiring sets",
         quick_n=300, thorough_n=8000, shard=20, mismatch_is_failure=True,
         assumptions=["one table operation at a time (Table serialises them under its mutex; C20)", "hooks succeed"],
         trusted_base=["pkg/symbol/table.go, symbol.go and the Link/Unlink/close-hook behaviour of pkg/port transcribed by hand into theories/Table/Table.v (Go map iteration order fixed; observables compared as sets / per-symbol sequences)", COMMON_MODEL],
     ),
     "C07": dict(
-        level_text="Coq theorems, one part PARTIAL. Proved for every table state: the activation test (isActivated: depth-first walk with a visited set; fuel shown sufficient) decides exactly 'the reference closure is present' (every symbol reachable through resolved port references has a node and all its references resolve to present symbols of its namespace); the list a load/unload walks (Table.linked) holds exactly the symbols that reach the start symbol through the reference index, cycles included; hence a load (unload) whose flows succeed notifies EXACTLY the walked symbols whose closure is present, and hooks never fire for a symbol whose closure is incomplete; within one removal the unload notifications precede the node close; the table invariant of C06 holds in every reachable state. PARTIAL: that the reference index is the reverse of the resolved port references in every reachable state - hence that symbols an operation does not walk keep their status, and the strict load/unload alternation - is not proved; it is evaluated after every operation of every generated history (shared targets, chains, cycles, dangling references, replacements) on the implementation by a Go oracle that recomputes the closure from the specs, and against the model (active sets and per-instance notification sequences must coincide).",
-        level_note="Partial as stated: the cross-operation half of 'exactly' rests on differential testing against the model and a direct oracle. Trusted as C06.",
-        technique="Coq proofs (DFS closure test, Kahn walk membership, exact notification set of one operation, event structure) + vm_compute correspondence + direct closure/alternation oracle",
+        level_text="Coq theorems. ACTIVE = CLOSURE PRESENT, over histories: along every history of Insert/Free/Close in which references carry an id or a name (not both), a name is used by one symbol of a namespace at a time, every inserted symbol is a new instance and the lifecycle flows succeed, the instances with a load notification and no later unload are, after every operation, exactly the present symbols whose whole reference closure is present, and nothing else; after Close no symbol is left and none is active. Ingredients, each a theorem for every table state: the activation test (isActivated: depth-first walk with a visited set; fuel shown sufficient) decides 'the reference closure is present'; the list a load/unload walks (Table.linked) holds exactly the symbols that reach the start symbol through the reference index, cycles included; the reference index is exactly the reverse of the resolved references (C06); a load (unload) whose flows succeed notifies exactly the walked symbols whose closure is present; adding a symbol completes exactly the closures of the symbols that reach it, removing it breaks exactly those; within one removal the unload notifications precede the node close. PARTIAL: strict load/unload ALTERNATION per instance (never two loads or two unloads in a row) is not a Coq theorem; it is evaluated after every operation of every generated history (shared targets, chains, cycles, dangling references, replacements) on the implementation by a Go oracle that recomputes the closure from the specs, and against the model (active sets and per-instance notification sequences must coincide).",
+        level_note="The history condition is computable (wf2_from_b) and every generated history of the correspondence run meets it; histories with two symbols of one name in a namespace, or references carrying both id and name, are outside the theorem (the implementation does not reject them). Alternation is compared, not proved. Trusted as C06.",
+        technique="Coq proofs (invariant over histories: reference index exact, active set = closed symbols; DFS closure test; Kahn walk membership; exact notification set of one operation) + vm_compute correspondence + direct closure/alternation oracle",
         quick_n=300, thorough_n=8000, shard=20, mismatch_is_failure=True,
         assumptions=["one table operation at a time (C20)", "hooks succeed (failing lifecycle flows are C08)"],
         trusted_base=["pkg/symbol/table.go, symbol.go and the Link/Unlink/close-hook behaviour of pkg/port transcribed by hand into theories/Table/Table.v (Go map iteration order fixed; observables compared as sets / per-symbol sequences)", COMMON_MODEL],
